@@ -652,8 +652,14 @@ package stree
 //@   ensures  [C01,C03,C04] stopped: !result ==> ncalls(f) > old(ncalls(f)) && !callret(f, ncalls(f) - 1)
 //@   ensures  [C01,C03,C04] finished: result ==> forall j int :: {callret(f, j)} old(ncalls(f)) <= j && j < ncalls(f) ==> callret(f, j)
 //@   ensures  [C01,C03,C04] older: forall j int :: {callarg(f, j)} {callret(f, j)} 0 <= j && j < old(ncalls(f)) ==> callarg(f, j) == old(callarg(f, j)) && callret(f, j) == old(callret(f, j))
+//@   ensures  [C01,C03,C04] first: ncalls(f) > old(ncalls(f)) ==> forall k int :: {k in n.keys} inK(n, k) ==> k >= rank(cmp, callarg(f, old(ncalls(f))))
+//@   ensures  [C01,C03,C04] nogap: forall a int, b int, k int :: {callarg(f, a), callarg(f, b), k in n.keys} old(ncalls(f)) <= a && b == a + 1 && b < ncalls(f) && inK(n, k) ==> !(rank(cmp, callarg(f, a)) < k && k < rank(cmp, callarg(f, b)))
+//@   ensures  [C01,C03,C04] last: result && n != nil ==> ncalls(f) > old(ncalls(f)) && forall k int :: {k in n.keys} inK(n, k) ==> k <= rank(cmp, callarg(f, ncalls(f) - 1))
 //@   modifies calls(f)
 //@   call inorder#1: cmp = cmp
+//@   loop 1: invariant [C01,C03,C04] first: ncalls(f) > old(ncalls(f)) ==> forall k int :: {k in old(n).keys} inK(old(n), k) ==> k >= rank(cmp, callarg(f, old(ncalls(f))))
+//@   loop 1: invariant [C01,C03,C04] nogap: forall a int, b int, k int :: {callarg(f, a), callarg(f, b), k in old(n).keys} old(ncalls(f)) <= a && b == a + 1 && b < ncalls(f) && inK(old(n), k) ==> !(rank(cmp, callarg(f, a)) < k && k < rank(cmp, callarg(f, b)))
+//@   loop 1: invariant [C01,C03,C04] covered: forall k int :: {k in old(n).keys} inK(old(n), k) ==> inK(n, k) || (ncalls(f) > old(ncalls(f)) && k <= rank(cmp, callarg(f, ncalls(f) - 1)))
 //@   loop 1: invariant [C01,C03,C04] older: forall j int :: {callarg(f, j)} {callret(f, j)} 0 <= j && j < old(ncalls(f)) ==> callarg(f, j) == old(callarg(f, j)) && callret(f, j) == old(callret(f, j))
 //@   loop 1: invariant [C01,C03,C04] shape: treeOK(old(n), cmp) && (n != nil ==> old(n) != nil && n in old(n).desc)
 //@   loop 1: invariant [C01,C03,C04] count: ncalls(f) >= old(ncalls(f)) && ncalls(f) - old(ncalls(f)) + cntOf(n) == cntOf(old(n))
@@ -663,7 +669,8 @@ package stree
 //@
 // inorderAfter: what is yielded are stored keys of the subtree, not smaller than key, in strictly ascending order, the
 // first of them being the least such key of the whole subtree (and when nothing is yielded and the walk was not
-// stopped, there is none). That *every* key >= key is yielded (no gaps further on) is not stated: bounded stand-in.
+// stopped, there is none), no key of the subtree lies strictly between two consecutive ones, and when the walk was not
+// stopped none lies beyond the last: exactly the keys not below key, in order.
 //@ func (*node).inorderAfter
 //@   role compare ord
 //@   role f yield
@@ -672,6 +679,8 @@ package stree
 //@   ensures  [C01,C04] ascending: forall a int, b int :: {callarg(f, a), callarg(f, b)} old(ncalls(f)) <= a && a < b && b < ncalls(f) ==> rank(compare, callarg(f, a)) < rank(compare, callarg(f, b))
 //@   ensures  [C01,C04] first: ncalls(f) > old(ncalls(f)) ==> forall k int :: {k in n.keys} inK(n, k) && k >= rank(compare, key) ==> k >= rank(compare, callarg(f, old(ncalls(f))))
 //@   ensures  [C01,C04] none: result && ncalls(f) == old(ncalls(f)) ==> forall k int :: {k in n.keys} inK(n, k) ==> k < rank(compare, key)
+//@   ensures  [C01,C04] nogap: forall a int, b int, k int :: {callarg(f, a), callarg(f, b), k in n.keys} old(ncalls(f)) <= a && b == a + 1 && b < ncalls(f) && inK(n, k) ==> !(rank(compare, callarg(f, a)) < k && k < rank(compare, callarg(f, b)))
+//@   ensures  [C01,C04] last: result ==> forall k int :: {k in n.keys} inK(n, k) && k >= rank(compare, key) ==> ncalls(f) > old(ncalls(f)) && k <= rank(compare, callarg(f, ncalls(f) - 1))
 //@   ensures  [C01,C04] count: ncalls(f) >= old(ncalls(f))
 //@   ensures  [C01,C04] went: forall j int :: {callret(f, j)} old(ncalls(f)) <= j && j < ncalls(f) - 1 ==> callret(f, j)
 //@   ensures  [C01,C04] stopped: !result ==> ncalls(f) > old(ncalls(f)) && !callret(f, ncalls(f) - 1)
@@ -685,6 +694,8 @@ package stree
 //@   loop 1: invariant [C01,C04] members: forall j int :: {callarg(f, j)} old(ncalls(f)) <= j && j < ncalls(f) ==> inK(n, rank(compare, callarg(f, j))) && rank(compare, callarg(f, j)) >= rank(compare, key) && callarg(f, j) == n.rep[rank(compare, callarg(f, j))]
 //@   loop 1: invariant [C01,C04] ascending: forall a int, b int :: {callarg(f, a), callarg(f, b)} old(ncalls(f)) <= a && a < b && b < ncalls(f) ==> rank(compare, callarg(f, a)) < rank(compare, callarg(f, b))
 //@   loop 1: invariant [C01,C04] below: i + 1 < len(path) ==> forall j int :: {callarg(f, j)} old(ncalls(f)) <= j && j < ncalls(f) ==> rank(compare, callarg(f, j)) in path[i + 1].keys
+//@   loop 1: invariant [C01,C04] nogap: forall a int, b int, k int :: {callarg(f, a), callarg(f, b), k in n.keys} old(ncalls(f)) <= a && b == a + 1 && b < ncalls(f) && inK(n, k) ==> !(rank(compare, callarg(f, a)) < k && k < rank(compare, callarg(f, b)))
+//@   loop 1: invariant [C01,C04] covered: i + 1 < len(path) ==> forall k int :: {k in path[i + 1].keys} k in path[i + 1].keys && k >= rank(compare, key) ==> ncalls(f) > old(ncalls(f)) && k <= rank(compare, callarg(f, ncalls(f) - 1))
 //@   loop 1: invariant [C01,C04] nothing: ncalls(f) == old(ncalls(f)) && i + 1 < len(path) ==> forall k int :: {k in path[i + 1].keys} k in path[i + 1].keys ==> k < rank(compare, key)
 //@   loop 1: invariant [C01,C04] first: ncalls(f) > old(ncalls(f)) ==> forall k int :: {k in n.keys} inK(n, k) && k >= rank(compare, key) ==> k >= rank(compare, callarg(f, old(ncalls(f))))
 //@   at after "cur := path[i]": assert [C01,C04] cur != nil && cur in n.desc
@@ -701,6 +712,8 @@ package stree
 //@   ensures  [C01,C04] ascending: forall a int, b int :: {callarg(yield, a), callarg(yield, b)} old(ncalls(yield)) <= a && a < b && b < ncalls(yield) ==> rank(t.compare, callarg(yield, a)) < rank(t.compare, callarg(yield, b))
 //@   ensures  [C01,C04] first: ncalls(yield) > old(ncalls(yield)) ==> forall k int :: {k in t.elems} k in t.elems && k >= rank(t.compare, key) ==> k >= rank(t.compare, callarg(yield, old(ncalls(yield))))
 //@   ensures  [C01,C04] none: ncalls(yield) == old(ncalls(yield)) ==> forall k int :: {k in t.elems} k in t.elems ==> k < rank(t.compare, key)
+//@   ensures  [C01,C04] nogap: forall a int, b int, k int :: {callarg(yield, a), callarg(yield, b), k in t.elems} old(ncalls(yield)) <= a && b == a + 1 && b < ncalls(yield) && k in t.elems ==> !(rank(t.compare, callarg(yield, a)) < k && k < rank(t.compare, callarg(yield, b)))
+//@   ensures  [C01,C04] last: ncalls(yield) == old(ncalls(yield)) || callret(yield, ncalls(yield) - 1) ==> forall k int :: {k in t.elems} k in t.elems && k >= rank(t.compare, key) ==> ncalls(yield) > old(ncalls(yield)) && k <= rank(t.compare, callarg(yield, ncalls(yield) - 1))
 //@   ensures  [C01,C04] count: ncalls(yield) >= old(ncalls(yield))
 //@   ensures  [C01,C04] went: forall j int :: {callret(yield, j)} old(ncalls(yield)) <= j && j < ncalls(yield) - 1 ==> callret(yield, j)
 //@   modifies calls(yield)
@@ -713,6 +726,9 @@ package stree
 //@   ensures  [C01,C04] ascending: forall a int, b int :: {callarg(yield, a), callarg(yield, b)} old(ncalls(yield)) <= a && a < b && b < ncalls(yield) ==> rank(t.compare, callarg(yield, a)) < rank(t.compare, callarg(yield, b))
 //@   ensures  [C01,C04] went: forall j int :: {callret(yield, j)} old(ncalls(yield)) <= j && j < ncalls(yield) - 1 ==> callret(yield, j)
 //@   ensures  [C01,C04] all: ncalls(yield) - old(ncalls(yield)) < t.size ==> ncalls(yield) > old(ncalls(yield)) && !callret(yield, ncalls(yield) - 1)
+//@   ensures  [C01,C04] first: ncalls(yield) > old(ncalls(yield)) ==> forall k int :: {k in t.elems} k in t.elems ==> k >= rank(t.compare, callarg(yield, old(ncalls(yield))))
+//@   ensures  [C01,C04] nogap: forall a int, b int, k int :: {callarg(yield, a), callarg(yield, b), k in t.elems} old(ncalls(yield)) <= a && b == a + 1 && b < ncalls(yield) && k in t.elems ==> !(rank(t.compare, callarg(yield, a)) < k && k < rank(t.compare, callarg(yield, b)))
+//@   ensures  [C01,C04] last: ncalls(yield) == old(ncalls(yield)) || callret(yield, ncalls(yield) - 1) ==> forall k int :: {k in t.elems} k in t.elems ==> ncalls(yield) > old(ncalls(yield)) && k <= rank(t.compare, callarg(yield, ncalls(yield) - 1))
 //@   modifies calls(yield)
 //@   call inorder#1: cmp = t.compare
 //@
